@@ -52,6 +52,7 @@ type vMethod struct {
 }
 
 type vExt struct {
+	nilAccessors map[string]bool // single-child accessors of rule contexts (nil when the child is absent)
 	fset      *token.FileSet
 	funcs     map[string]*ast.FuncDecl // "Recv.Name" or "Name"
 	tokenOf   map[string]int           // CypherLexerX / CypherParserX -> type
@@ -662,6 +663,31 @@ func visitorFacts(repo string, w *strings.Builder) error {
 	if err != nil {
 		return err
 	}
+	// single-child accessors of the generated rule contexts: `func (s *OC_XContext) A() antlr.TerminalNode | IOC_YContext` — they
+	// return nil when the child is absent (optional in the grammar, or missing in a tree built by error recovery)
+	nilAccessors := map[string]bool{}
+	for _, f := range pfiles {
+		for _, d := range f.Decls {
+			fd, ok := d.(*ast.FuncDecl)
+			if !ok || fd.Recv == nil || len(fd.Type.Params.List) != 0 || fd.Type.Results == nil || len(fd.Type.Results.List) != 1 {
+				continue
+			}
+			if rt := recvType(fd); !strings.HasPrefix(rt, "OC_") || !strings.HasSuffix(rt, "Context") {
+				continue
+			}
+			switch r := fd.Type.Results.List[0].Type.(type) {
+			case *ast.SelectorExpr:
+				if r.Sel.Name == "TerminalNode" {
+					nilAccessors[fd.Name.Name] = true
+				}
+			case *ast.Ident:
+				if strings.HasPrefix(r.Name, "IOC_") {
+					nilAccessors[fd.Name.Name] = true
+				}
+			}
+		}
+	}
+	x.nilAccessors = nilAccessors
 	var ruleNames, literalNames, symbolicNames []string
 	strList := func(cl *ast.CompositeLit) []string {
 		var names []string
@@ -1165,6 +1191,42 @@ func visitorFacts(repo string, w *strings.Builder) error {
 		_ = (&printer.Config{Mode: printer.RawFormat}).Fprint(&b, fset, &printer.CommentedNode{Node: &fd2, Comments: nil})
 		return strings.Join(strings.Fields(b.String()), " ")
 	}
+	// `<ctx>.A().M(…)`: a method called directly on the result of a single-child accessor — a nil dereference when the child is absent
+	var chains []string
+	{
+		var keys []string
+		for k := range x.funcs {
+			keys = append(keys, k)
+		}
+		sort.Strings(keys)
+		for _, k := range keys {
+			fd := x.funcs[k]
+			if fd.Body == nil {
+				continue
+			}
+			ast.Inspect(fd.Body, func(n ast.Node) bool {
+				outer, ok := n.(*ast.CallExpr)
+				if !ok {
+					return true
+				}
+				sel, ok := outer.Fun.(*ast.SelectorExpr)
+				if !ok {
+					return true
+				}
+				inner, ok := sel.X.(*ast.CallExpr)
+				if !ok || len(inner.Args) != 0 {
+					return true
+				}
+				isel, ok := inner.Fun.(*ast.SelectorExpr)
+				if !ok || !x.nilAccessors[isel.Sel.Name] {
+					return true
+				}
+				chains = append(chains, k+": "+src(fset, sel))
+				return true
+			})
+		}
+	}
+	fmt.Fprintf(w, "/-- every `<receiver>.A().M` in cypher/frontend where A is a single-child accessor of a generated rule context (nil when the child is absent): \"<function>: <expression>\" -/\ndef accessorChains : List String := %s\n", leanStrList(chains))
 	fmt.Fprintf(w, "def srcSyntaxError : String := %s\n", leanStr(funcSrc("Context.SyntaxError")))
 	fmt.Fprintf(w, "def srcAddErrors : String := %s\n", leanStr(funcSrc("Context.AddErrors")))
 	fmt.Fprintf(w, "def srcNewUnsupportedRuleError : String := %s\n", leanStr(funcSrc("BaseVisitor.newUnsupportedRuleError")))
